@@ -126,7 +126,7 @@ class Matcher:
                 return None
             return k(i + 1, caps)
         if t == 'brk':
-            if i >= n or (s[i] == 10 and node[1]):
+            if i >= n or s[i] == 10:         # no bracket expression matches the newline
                 return None
             if not self.brk(node, s[i]):
                 return None
